@@ -135,7 +135,7 @@ func main() {
 	r.Rule("operation sequences over create, derive (all scopes, both branches), new account, custom scope, xpub-account import, import of private key / public key / P2SH script / witness script (secret and public) / taproot script, passphrase change (public and private, locked and unlocked), lock/unlock, mark-used, restart and convert-to-watching-only (two of three conversions preceded by an attempt that fails at a random database write and is rolled back) on a real manager over a real bdb file. The harness knows every secret because it chose or derived them (independent BIP32 oracle): seed, root / purpose / coin-type / account private keys raw, as chain-code||0x00||key and as base58 xprv strings, every issued address's private key raw and WIF, imported keys, secret scripts, every passphrase ever used; and the public counterparts (xpub strings, chain-code||pubkey, 33-byte and x-only public keys, hash160, script addresses, address strings). An 8-byte-prefix indexed multi-pattern scanner checks (a) every key and value at Put time and (b) the RAW FILE IMAGE (walletdb Copy = bbolt WriteTo: all pages incl. freed ones) after every operation, i.e. every image a crash between commits could leave. After conversion: restart, every address still resolves, every passphrase ever used is refused with a watching-only error, the full private-access battery fails. Non-trivial = sequence with >= 30 secret patterns and >= 10 scanned images; distinct = distinct op-kind sequences.")
 	r.Trusted("walletdb.DB.Copy returns the raw page image", "independent BIP32 oracle for the key material", "hdkeychain/btcutil base58 encoders for the string forms")
 	r.Assume("a byte scan cannot tell under which key a ciphertext is sealed (C05 covers access)", "patterns straddling a page boundary between two database versions are not detected", "public material is enforced throughout: these histories never record a transaction")
-	dir, _ := os.MkdirTemp("", "c04")
+	dir := r.TempDir("c04")
 	defer os.RemoveAll(dir)
 	wt := mgr.DefaultWeights
 	wt.Convert, wt.ImportPriv, wt.ImportScript, wt.ImportWScript, wt.ImportTScript, wt.ChangePriv, wt.ChangePub, wt.Unlock = 2, 5, 4, 4, 3, 5, 4, 10
